@@ -504,6 +504,10 @@ func (st *state) validate(instance reflect.Value, schema *Schema, callerAnns *an
 			//
 			// Note: this is much faster than comparing with falseSchema using Equal.
 			isFalsy := schema.AdditionalProperties.Not != nil && reflect.ValueOf(*schema.AdditionalProperties.Not).IsZero()
+			if st.rs.draft == draft7 && schema.AdditionalProperties.Ref != "" {
+				// In draft-07 the siblings of "$ref", "not" among them, are ignored.
+				isFalsy = false
+			}
 			if isFalsy {
 				var disallowed []string
 				for prop := range properties(instance) {
